@@ -50,8 +50,8 @@ func runK5(r *rng, n int) {
 		be.fs = newMemfs()
 		srv := p9.NewServer(be)
 		conns := []*k4Conn{
-			{peer: newServerPeer(srv), id: 0, bound: map[uint64]bool{}},
-			{peer: newServerPeer(srv), id: 1, bound: map[uint64]bool{}},
+			{peer: newServerPeer(srv), id: 0, bound: map[uint64]bool{}, faultFid: -1},
+			{peer: newServerPeer(srv), id: 1, bound: map[uint64]bool{}, faultFid: -1},
 		}
 		emit("k4new cf=0 => ok")
 		emit("k5new => ok")
